@@ -8,8 +8,10 @@ Open Scope N_scope.
 (* ---------- abstraction ---------- *)
 Definition abs_st (st : wstate) : mst :=
   match st with WAdded => MAdded | WAlive => MAlive | WDead => MDead end.
+(* a warrior that is not started (or sits between Reset and its re-spawn) has no tasks *)
 Definition absw (w : warrior) : mwar :=
-  mkMW (w_code w) (w_start w) (abs_st (w_state w)) (w_queue w).
+  mkMW (w_code w) (w_start w) (abs_st (w_state w))
+       (match w_state w with WAdded => [] | _ => w_queue w end).
 Definition cfg_of (s : sim) : mcfg := mkMC (s_m s) (s_rl s) (s_wl s) (s_procs s) (s_cycles s).
 
 (* the reference state t describes the model state s *)
@@ -98,7 +100,7 @@ Proof.
   pose proof (proj1 (Forall_forall _ _) E w (nth_error_In _ _ Hn)) as [Hcode Hw].
   cbn [mw_code mw_start mw_st mw_q absw].
   destruct (w_state w) eqn:Hst; cbn [abs_st].
-  - (* added *) specialize (IH (S i) s reps t tr HI HG HR). destruct (w_queue w); exact IH.
+  - (* added *) exact (IH (S i) s reps t tr HI HG HR).
   - (* alive *)
     destruct Hw as (q & Hpq & Hq & Hs & Hl & Hv). rewrite Hpq.
     pose proof (rq_pop_spec q Hq) as Hpop.
@@ -382,14 +384,6 @@ Proof.
   apply IH; try assumption.
   - cbn [length] in Hb. lia.
   - rewrite add64_small by lia. apply core_eq_set. assumption.
-Qed.
-
-Lemma m_load_congr M c off off' code :
-  0 < M -> off mod M = off' mod M -> m_load M c off code = m_load M c off' code.
-Proof.
-  intros HM. revert c off off'. induction code as [|x t IH]; intros c off off' E; cbn [m_load]; [reflexivity|].
-  rewrite E. apply IH.
-  rewrite <- (N.add_mod_idemp_l off 1), <- (N.add_mod_idemp_l off' 1) by lia. now rewrite E.
 Qed.
 
 Lemma nth_error_Z_of_nat {A} (l : list A) (wi : Z) w :
